@@ -231,7 +231,11 @@ func raceMode(run *vk.Run, lines []string) {
 		vk.Infra("VCHECK_BIN not set")
 	}
 	bin := filepath.Join(dir, "vrace")
-	build := exec.Command("go", "build", "-race", "-tags", "verif", "-o", bin, "./cmd/vrace")
+	args := []string{"build", "-race", "-tags", "verif", "-o", bin}
+	if mf := os.Getenv("VERIF_MODFILE"); mf != "" {
+		args = append(args, "-modfile="+mf)
+	}
+	build := exec.Command("go", append(args, "./cmd/vrace")...)
 	build.Dir = filepath.Join(vk.VerifRoot(), "harness")
 	build.Env = append(os.Environ(), "GOFLAGS=-mod=mod", "GOPROXY=off", "GOSUMDB=off", "CGO_ENABLED=1")
 	if out, err := build.CombinedOutput(); err != nil {
